@@ -281,6 +281,16 @@ func (c *Ctx) c10LongValues() {
 	}
 }
 
+// the big-number path (more than 15 digit characters in the stored text) drops the integer zero padding
+func (c *Ctx) c10BigNumberPadding() {
+	v, code, want := "-0.009420104189207", "00000.00##########%", "-00000.942010418921%"
+	got := excelize.VerifFormat(v, code, false, excelize.CellTypeNumber)
+	c.Count("big-number-padding", true, v+code)
+	if got != want {
+		c.Fail("oracle", "C10_numeric_accuracy", map[string]string{"value": v, "code": code}, fmt.Sprintf("%s with %q gives %q; the code's five mandatory integer places give %q", v, code, got, want), "c10-big-number-int-padding")
+	}
+}
+
 func (c *Ctx) c10Sections() {
 	for _, tc := range []struct{ val, code, want string }{
 		{"5", `"P"0;"N"0;"Z"0;"T"@`, "P5"}, {"-5", `"P"0;"N"0;"Z"0;"T"@`, "N5"}, {"0", `"P"0;"N"0;"Z"0;"T"@`, "Z0"},
@@ -514,6 +524,7 @@ func runC10(c *Ctx) {
 	}
 	c.c10Sections()
 	c.c10LongValues()
+	c.c10BigNumberPadding()
 	c.c10Numeric(n)
 	c.c10Dates(n / 2)
 	c.c10Totality(n)
@@ -618,8 +629,16 @@ func (c *Ctx) c10Model(n int) {
 					shown++
 				}
 			}
-			if shown > 15 {
-				c.R.Dist["model-beyond-15-shown-digits"]++
+			// a stored text of more than 15 digit characters (leading zeros of 0.00942... included) takes the
+			// library's big-number path, which the model does not cover (finding c10-big-number-int-padding)
+			chars := 0
+			for _, ch := range txt {
+				if ch >= '0' && ch <= '9' {
+					chars++
+				}
+			}
+			if shown > 15 || chars > 15 {
+				c.R.Dist["model-beyond-15-digits"]++
 				return
 			}
 			reqs = append(reqs, fmt.Sprintf("c10.render %d %s %d %s", sign, digits, m, strings.Join(toks, " ")))
